@@ -109,6 +109,24 @@ func hopByHopHeaderRemove(outreq, req *bfe_http.Request) {
 	// is modifying the same underlying map from req (shallow
 	// copied above) so we only copy it if necessary.
 	copiedHeaders := false
+
+	// Remove the fields nominated by the client's Connection header
+	// (RFC 7230 6.1): they are hop-by-hop for this connection only.
+	for _, f := range req.Header["Connection"] {
+		for _, name := range strings.Split(f, ",") {
+			name = strings.TrimSpace(name)
+			if name == "" || outreq.Header.Get(name) == "" {
+				continue
+			}
+			if !copiedHeaders {
+				outreq.Header = make(bfe_http.Header, len(req.Header))
+				bfe_http.CopyHeader(outreq.Header, req.Header)
+				copiedHeaders = true
+			}
+			outreq.Header.Del(name)
+		}
+	}
+
 	for _, h := range bfe_basic.HopHeaders {
 		hv := outreq.Header.Get(h)
 		if hv == "" {
